@@ -9,6 +9,8 @@ Line protocol for C05 (reactions conserve atoms and mass and convert exactly X).
         → `nu=<rows> r=<flat> ph=<codes> bal=<0|1> exact=<0|1> chk=<0|1>` or `err=<class>`
           (chk: would `check_atomic_balance=True` accept the definition)
   setbasis <name> <mol|wt>          → as `rxn`
+  copybasis <new> <orig> <mol|wt> [how=copy|setter]   → as `rxn`, for the new object (`orig.copy(basis=…)`)
+  show <name>                       → as `rxn` (the stored single reaction as it is now)
   par|ser|sys <name> <member,..>    → `ok` or `err=<class>`
   call <name> arr rows=<rows>       → `out=<rows> exact=<0|1> tag=<clean|clamp> negsum=<q>` or `err=<class> negsum=<q>`
   call <name> stream pkg=<k> ph=<chars> rows=<rows>   → likewise
@@ -279,6 +281,30 @@ def step (st : St) (line : String) : St × String :=
       match o.kind with
       | .member (.single rx) =>
         if b == o.basis then (st, showRxn o rx e.bal e.ex) else
+        let mwT := tile o.nRows o.mw
+        match (if b == .wt then rx.toWt mwT else rx.toMol mwT) with
+        | .error err => (st, errLine err)
+        | .ok rx' =>
+          let o' := { o with kind := .member (.single rx'), basis := b }
+          (st.put name { o := o', bal := e.bal, ex := false }, showRxn o' rx' e.bal false)
+      | _ => (st, "bad-op")
+    | _, _ => (st, "bad-op")
+  | ["show", name] =>
+    match st.obj name with
+    | none => (st, "noref")
+    | some e =>
+      match e.o.kind with
+      | .member (.single rx) => (st, showRxn e.o rx e.bal e.ex)
+      | _ => (st, "bad-op")
+  | "copybasis" :: name :: orig :: b :: _ =>
+    -- `orig.copy(basis=b)` (or a copy followed by the basis setter): a new object; `orig` stays as it is
+    match st.obj orig, parseBasis b with
+    | none, _ => (st, "noref")
+    | some e, some b =>
+      let o := e.o
+      match o.kind with
+      | .member (.single rx) =>
+        if b == o.basis then (st.put name e, showRxn o rx e.bal e.ex) else
         let mwT := tile o.nRows o.mw
         match (if b == .wt then rx.toWt mwT else rx.toMol mwT) with
         | .error err => (st, errLine err)
